@@ -261,6 +261,13 @@ func lnPrepare(id int, sc *lnScen) *lnRun {
 	ls.sampleRate = 125e6 / float64(dev.lsync*dev.nrows)
 	ls.samplePeriod = time.Duration(roundint(1e9 / ls.sampleRate))
 	card.period = ls.samplePeriod
+	if sc.VSeed%2 == 1 && sc.Rows != sc.Cols {
+		// the same source object has run before with the TRANSPOSED geometry (same number of channels): what Sample()
+		// sets up for the earlier run, then for this one (one LanceroSource serves every run of the server)
+		dev.nrows, dev.ncols = sc.Cols, sc.Rows
+		ls.updateChanOrderMap()
+		dev.nrows, dev.ncols = sc.Rows, sc.Cols
+	}
 	ls.updateChanOrderMap()
 	ls.voltsPerArb = make([]float32, ls.nchan)
 	for i := range ls.voltsPerArb {
